@@ -115,6 +115,10 @@ Proof.
   unfold is_hex, not_hyphen in *. lia.
 Qed.
 
+(* str(u) without its hyphens is u.hex *)
+Lemma uuid_str_unhyphen n : replace [45] [] (uuid_str n) = uuid_hex n.
+Proof. unfold uuid_str, uuid_hex. apply unhyphenate, lhex_not_hyphen, hex32_lhex. Qed.
+
 (* ---------------------------------------------------------------- is_uuid_like *)
 Definition cs_hex : list N := [48; 49; 50; 51; 52; 53; 54; 55; 56; 57; 97; 98; 99; 100; 101; 102].
 
